@@ -50,6 +50,13 @@ def cell_msgs(w, rng, p, q):
         out.append((pr.addr, "pair.receive_withdraw", {"receive": {
             "sender": "attacker", "amount": str(rng.choice([1, 2, 1000, 10 ** 9])), "msg": b64({"withdraw_liquidity": {}})}}, ("lp", pr)))
         for off in pr.assets:
+            if off[0] == "t":
+                # the cw20-offer swap path entered through the sibling direct message: no caller is entitled to it
+                amt = rng.choice([1, 1000, 10 ** 6])
+                out.append((pr.addr, "pair.swap_direct_with_cw20_offer", {"swap": {
+                    "offer_asset": {"info": ainfo(off), "amount": str(amt)}, "belief_price": None, "max_spread": None, "to": None}},
+                    ("nobody",), rng.choice([[], [[w.natives[0][1], "1"]], [[rng.choice(w.natives)[1], str(amt)]]])))
+        for off in pr.assets:
             amt = rng.choice([1, 1000, 10 ** 6])
             out.append((pr.addr, "pair.receive_swap", {"receive": {
                 "sender": "attacker", "amount": str(amt),
@@ -94,17 +101,17 @@ def authorised(w, auth, caller_addr, owner):
     return False
 
 
-def do_cell(acc, w, phase, role, caller, target, name, msg, auth, owner, via="direct"):
+def do_cell(acc, w, phase, role, caller, target, name, msg, auth, owner, via="direct", funds=None):
     ok_auth = authorised(w, auth, caller, owner)
     if ok_auth:
         # authorised cells are exercised by the positive controls (they change roles / registry and would
         # invalidate the rest of the matrix walk); here only count them
         acc.count("cells_authorised_skipped")
         return None
-    op = {"kind": "matrix", "actor": caller, "contract": target, "msg": msg, "funds": [], "sem": {"cell": name, "role": role}}
+    op = {"kind": "matrix", "actor": caller, "contract": target, "msg": msg, "funds": sorted(funds or []), "sem": {"cell": name, "role": role}}
     st = w.step(op)
     acc.ev()
-    acc.cls(phase, name, role, via, "auth" if ok_auth else "unauth", st.res["r"])
+    acc.cls(phase, name, role, via + ("+funds" if funds else ""), "auth" if ok_auth else "unauth", st.res["r"])
     acc.count("cells_" + ("authorised" if ok_auth else "unauthorised"))
     if ok_auth:
         return st
@@ -251,8 +258,12 @@ def run_world(acc, srv, key):
                 acc.count("lp_parked_on_pair" if st.ok else "lp_park_failed")
         msgs = cell_msgs(w, rng, p, q_)
         for role, caller in callers(w, p, q_, owner, former):
-            for target, name, msg, auth in msgs:
-                do_cell(acc, w, phase, role, caller, target, name, msg, auth, owner)
+            for cell in msgs:
+                target, name, msg, auth = cell[:4]
+                funds = cell[4] if len(cell) > 4 else []
+                if funds and any(w.ledger.get(caller, d) < int(a) for d, a in funds):
+                    funds = []
+                do_cell(acc, w, phase, role, caller, target, name, msg, auth, owner, funds=funds)
         real_send_cells(acc, w, phase, p, owner)
         real_send_cells(acc, w, phase, q_, owner)
         positive_controls(acc, w, rng, phase, p, owner)
